@@ -31,6 +31,13 @@ package main
 //   schedule-through-binary  the sched-trace programs run by the real binary with 0-3 -r
 //                 selectors (commas, brackets, quotes in the selector text), several
 //                 files, JSONL, stdin: tied to the in-process run and to the model
+//   root-changed-during-walk  the root array is changed THROUGH ANOTHER NAME while it is
+//                 walked: an alias taken in BEGINFILE (directly, through a second
+//                 BEGINFILE rule, a function parameter, a function result, an object
+//                 member, an array element, a selector root, a root assigned in
+//                 BEGINFILE) and pattern rules that push, store ahead / behind / past
+//                 the end, reassign `$`, pop, popfirst or re-bind the alias; the runs
+//                 are those of the array as it was when the walk began (c02WRun)
 
 import (
 	"encoding/json"
@@ -2174,6 +2181,594 @@ func init() {
 				return
 			}
 			c02Binary(r, tierN(tier, 1500, 12000), emit)
+		},
+	})
+}
+
+// ---------------------------------------------------------------- root-changed-during-walk
+
+// The reference of this family keeps arrays as lists of cells, like the property text: the
+// walk visits the cells the root HAD when the walk began, in index order, and reads each
+// cell's value when its turn comes. Values are small integers and null.
+
+type c02WCell struct{ v any } // int or nil (null)
+
+type c02WArr struct{ cells []*c02WCell }
+
+const (
+	c02WPush     = iota // A.push(E)
+	c02WSetAbs          // A[k] = E (past the end: filled with null up to k)
+	c02WSetRel          // A[$index + k] = E (k may be negative)
+	c02WSetElem         // $ = E
+	c02WPop             // A.pop()
+	c02WPopFirst        // A.popfirst()
+	c02WRebind          // A = [7, 8]: the name no longer means the root
+	c02WNext            // next
+)
+
+const (
+	c02WConst   = iota // k
+	c02WIdxPlus        // $index + k
+	c02WElem           // $
+	c02WElemMul        // $ * 10 + k
+)
+
+type c02WExpr struct{ kind, k int }
+
+type c02WAct struct {
+	kind, k int
+	e       c02WExpr
+}
+
+const (
+	c02WAlways  = iota
+	c02WIdxEq   // $index == k
+	c02WIdxLt   // $index < k
+	c02WElemLt  // $ < k
+	c02WIdxMod  // $index % 2 == k
+	c02WLenLt   // A.length() < k
+	c02WIdxPos  // $index > 0
+	c02WIdxLast // $index == A.length() - 1
+)
+
+type c02WRule struct {
+	cond, ck int
+	trace    bool
+	acts     []c02WAct
+}
+
+type c02WProg struct {
+	alias int  // how the second name is taken, see c02WAliasNames
+	src   int  // 0 the input array, 1 the selector $.list of an object, 2 BEGINFILE assigns a literal array to $
+	viaFn bool // the changes are made by functions called from the rules
+	lit   []int
+	rules []c02WRule
+}
+
+var c02WAliasNames = []string{"beginfile", "second-beginfile", "function-parameter", "function-result", "object-member", "array-element", "first-root-only"}
+
+func (p *c02WProg) name() string {
+	switch p.alias {
+	case 4:
+		return "box.r"
+	case 5:
+		return "box[0]"
+	}
+	return "all"
+}
+
+func c02WExprSrc(e c02WExpr) string {
+	switch e.kind {
+	case c02WConst:
+		return strconv.Itoa(e.k)
+	case c02WIdxPlus:
+		return fmt.Sprintf("$index + %d", e.k)
+	case c02WElem:
+		return "$"
+	}
+	return fmt.Sprintf("$ * 10 + %d", e.k)
+}
+
+func (p *c02WProg) text() string {
+	A := p.name()
+	var sb strings.Builder
+	sb.WriteString("BEGIN { all = null; tmp = null; box = null }\n")
+	if p.viaFn {
+		fmt.Fprintf(&sb, "function grow(v) { %s.push(v) }\nfunction setat(i, v) { %s[i] = v }\nfunction shrink() { return %s.pop() }\nfunction behead() { return %s.popfirst() }\n", A, A, A, A)
+	}
+	pre := "print \"BF\", $"
+	if p.src == 2 {
+		parts := make([]string, len(p.lit))
+		for i, v := range p.lit {
+			parts[i] = strconv.Itoa(v)
+		}
+		pre += "; $ = [" + strings.Join(parts, ", ") + "]"
+	}
+	switch p.alias {
+	case 0:
+		fmt.Fprintf(&sb, "BEGINFILE { %s; all = $ }\n", pre)
+	case 1:
+		fmt.Fprintf(&sb, "BEGINFILE { %s; tmp = $ }\nBEGINFILE { all = tmp }\n", pre)
+	case 2:
+		fmt.Fprintf(&sb, "function keep(a) { all = a }\nBEGINFILE { %s; keep($) }\n", pre)
+	case 3:
+		fmt.Fprintf(&sb, "function whole() { return $ }\nBEGINFILE { %s; all = whole() }\n", pre)
+	case 4:
+		fmt.Fprintf(&sb, "BEGINFILE { %s; box = {r: $} }\n", pre)
+	case 5:
+		fmt.Fprintf(&sb, "BEGINFILE { %s; box = [$] }\n", pre)
+	case 6:
+		fmt.Fprintf(&sb, "BEGINFILE { %s; if (all is null) all = $ }\n", pre)
+	}
+	sb.WriteString("{ print \"T\", $index, $ }\n")
+	for ri, ru := range p.rules {
+		switch ru.cond {
+		case c02WIdxEq:
+			fmt.Fprintf(&sb, "$index == %d ", ru.ck)
+		case c02WIdxLt:
+			fmt.Fprintf(&sb, "$index < %d ", ru.ck)
+		case c02WElemLt:
+			fmt.Fprintf(&sb, "$ < %d ", ru.ck)
+		case c02WIdxMod:
+			fmt.Fprintf(&sb, "$index %% 2 == %d ", ru.ck)
+		case c02WLenLt:
+			fmt.Fprintf(&sb, "%s.length() < %d ", A, ru.ck)
+		case c02WIdxPos:
+			sb.WriteString("$index > 0 ")
+		case c02WIdxLast:
+			fmt.Fprintf(&sb, "$index == %s.length() - 1 ", A)
+		}
+		var st []string
+		if ru.trace {
+			st = append(st, fmt.Sprintf("print \"P%d\", $index, $", ri))
+		}
+		for _, a := range ru.acts {
+			e := c02WExprSrc(a.e)
+			switch a.kind {
+			case c02WPush:
+				if p.viaFn {
+					st = append(st, "grow("+e+")")
+				} else {
+					st = append(st, A+".push("+e+")")
+				}
+			case c02WSetAbs:
+				if p.viaFn {
+					st = append(st, fmt.Sprintf("setat(%d, %s)", a.k, e))
+				} else {
+					st = append(st, fmt.Sprintf("%s[%d] = %s", A, a.k, e))
+				}
+			case c02WSetRel:
+				ix := fmt.Sprintf("$index + %d", a.k)
+				if a.k < 0 {
+					ix = fmt.Sprintf("$index - %d", -a.k)
+				}
+				if p.viaFn {
+					st = append(st, fmt.Sprintf("setat(%s, %s)", ix, e))
+				} else {
+					st = append(st, fmt.Sprintf("%s[%s] = %s", A, ix, e))
+				}
+			case c02WSetElem:
+				st = append(st, "$ = "+e)
+			case c02WPop:
+				if p.viaFn {
+					st = append(st, "shrink()")
+				} else {
+					st = append(st, A+".pop()")
+				}
+			case c02WPopFirst:
+				if p.viaFn {
+					st = append(st, "behead()")
+				} else {
+					st = append(st, A+".popfirst()")
+				}
+			case c02WRebind:
+				st = append(st, A+" = [7, 8]")
+			case c02WNext:
+				st = append(st, "next")
+			}
+		}
+		sb.WriteString("{ " + strings.Join(st, "; ") + " }\n")
+	}
+	fmt.Fprintf(&sb, "{ print \"Z\", $index, $, %s.length() }\n", A)
+	fmt.Fprintf(&sb, "ENDFILE { print \"EF\", $, %s }\nEND { print \"E\", %s }", A, A)
+	return sb.String()
+}
+
+func c02WShow(v any) string {
+	switch x := v.(type) {
+	case nil:
+		return "null"
+	case int:
+		return strconv.Itoa(x)
+	case *c02WArr:
+		parts := make([]string, len(x.cells))
+		for i, c := range x.cells {
+			parts[i] = c02WShow(c.v)
+		}
+		return "[" + strings.Join(parts, ", ") + "]"
+	}
+	return "?"
+}
+
+func c02WNum(v any) int {
+	if n, ok := v.(int); ok {
+		return n
+	}
+	return 0 // null counts as 0 in arithmetic
+}
+
+// c02WRun: the trace the property demands for the roots (each a list of ints / nil). walks
+// lists, per root, how many elements the root had when its walk began; gap says that the
+// walked array grew after a pop() during its own walk (the documented modelling gap: what
+// `$` holds at the re-used position is not fixed by the model, only the number of runs is).
+func c02WRun(p *c02WProg, roots [][]any) (class, out string, walks []int, gap bool) {
+	var sb strings.Builder
+	var alias *c02WArr
+	for _, rv := range roots {
+		orig := &c02WArr{}
+		for _, v := range rv {
+			orig.cells = append(orig.cells, &c02WCell{v})
+		}
+		root := orig
+		fmt.Fprintf(&sb, "BF %s\n", c02WShow(orig))
+		if p.src == 2 {
+			root = &c02WArr{}
+			for _, v := range p.lit {
+				root.cells = append(root.cells, &c02WCell{v})
+			}
+		}
+		if p.alias != 6 || alias == nil {
+			alias = root
+		}
+		snapshot := append([]*c02WCell(nil), root.cells...)
+		walks = append(walks, len(snapshot))
+		popped := false
+		grew := func(a *c02WArr) {
+			if a == root && popped {
+				gap = true
+			}
+		}
+		for idx, cell := range snapshot {
+			fmt.Fprintf(&sb, "T %d %s\n", idx, c02WShow(cell.v))
+			skip := false
+			for ri, ru := range p.rules {
+				var hold bool
+				switch ru.cond {
+				case c02WAlways:
+					hold = true
+				case c02WIdxEq:
+					hold = idx == ru.ck
+				case c02WIdxLt:
+					hold = idx < ru.ck
+				case c02WElemLt:
+					hold = cell.v == nil || cell.v.(int) < ru.ck // null sorts before every number
+				case c02WIdxMod:
+					hold = idx%2 == ru.ck
+				case c02WLenLt:
+					hold = len(alias.cells) < ru.ck
+				case c02WIdxPos:
+					hold = idx > 0
+				case c02WIdxLast:
+					hold = idx == len(alias.cells)-1
+				}
+				if !hold {
+					continue
+				}
+				if ru.trace {
+					fmt.Fprintf(&sb, "P%d %d %s\n", ri, idx, c02WShow(cell.v))
+				}
+				for _, a := range ru.acts {
+					var val any
+					switch a.e.kind {
+					case c02WConst:
+						val = a.e.k
+					case c02WIdxPlus:
+						val = idx + a.e.k
+					case c02WElem:
+						val = cell.v
+					case c02WElemMul:
+						val = c02WNum(cell.v)*10 + a.e.k
+					}
+					switch a.kind {
+					case c02WPush:
+						alias.cells = append(alias.cells[:len(alias.cells):len(alias.cells)], &c02WCell{val})
+						grew(alias)
+					case c02WSetAbs, c02WSetRel:
+						ix := a.k
+						if a.kind == c02WSetRel {
+							ix += idx
+						}
+						if ix < 0 {
+							ix += len(alias.cells)
+							if ix < 0 {
+								return "runtime", sb.String(), walks, gap
+							}
+						}
+						for len(alias.cells) <= ix {
+							alias.cells = append(alias.cells[:len(alias.cells):len(alias.cells)], &c02WCell{nil})
+							grew(alias)
+						}
+						alias.cells[ix].v = val
+					case c02WSetElem:
+						cell.v = val
+					case c02WPop:
+						if n := len(alias.cells); n > 0 {
+							alias.cells = alias.cells[: n-1 : n-1]
+							if alias == root {
+								popped = true
+							}
+						}
+					case c02WPopFirst:
+						if len(alias.cells) > 0 {
+							alias.cells = alias.cells[1:]
+						}
+					case c02WRebind:
+						alias = &c02WArr{cells: []*c02WCell{{7}, {8}}}
+					case c02WNext:
+						skip = true
+					}
+					if skip {
+						break
+					}
+				}
+				if skip {
+					break
+				}
+			}
+			if !skip {
+				fmt.Fprintf(&sb, "Z %d %s %d\n", idx, c02WShow(cell.v), len(alias.cells))
+			}
+		}
+		fmt.Fprintf(&sb, "EF %s %s\n", c02WShow(orig), c02WShow(alias))
+	}
+	fmt.Fprintf(&sb, "E %s\n", c02WShow(alias))
+	return "ok", sb.String(), walks, gap
+}
+
+func c02WGenExpr(r *rand.Rand, big bool) c02WExpr {
+	if big {
+		switch r.Intn(3) {
+		case 0:
+			return c02WExpr{c02WConst, 50 + r.Intn(40)}
+		case 1:
+			return c02WExpr{c02WIdxPlus, 100}
+		}
+		return c02WExpr{c02WElemMul, 50}
+	}
+	switch r.Intn(6) {
+	case 0, 1:
+		return c02WExpr{c02WConst, r.Intn(100)}
+	case 2:
+		return c02WExpr{c02WIdxPlus, pick(r, []int{1, 10, 100})}
+	case 3:
+		return c02WExpr{c02WElem, 0}
+	}
+	return c02WExpr{c02WElemMul, pick(r, []int{0, 1, 50})}
+}
+
+// c02WGenRule: one rule that changes the walked array (or its own element). Rules that can make
+// the array longer get a condition that holds for boundedly many elements, so that even a walk
+// that followed the live array would end.
+func c02WGenRule(r *rand.Rand, n int, pops bool) c02WRule {
+	ru := c02WRule{trace: chance(r, 0.4)}
+	na := pick(r, []int{1, 1, 1, 2, 2, 3})
+	growth, onlyNear := false, true
+	for k := 0; k < na; k++ {
+		var a c02WAct
+		w := r.Intn(100)
+		if pops && k == 0 && chance(r, 0.5) {
+			w = 78 + r.Intn(16) // a program that shrinks the array
+		}
+		switch {
+		case w < 36:
+			a = c02WAct{kind: c02WPush}
+			growth = true
+		case w < 48:
+			a = c02WAct{kind: c02WSetAbs, k: r.Intn(n + 3)}
+			growth, onlyNear = true, false
+		case w < 64:
+			a = c02WAct{kind: c02WSetRel, k: pick(r, []int{-1, 1, 1, 2})}
+			if a.k > 0 {
+				growth = true
+			}
+			if a.k > 1 {
+				onlyNear = false
+			}
+		case w < 78:
+			a = c02WAct{kind: c02WSetElem}
+		case w < 88 && pops:
+			a = c02WAct{kind: c02WPop}
+		case w < 94 && pops:
+			a = c02WAct{kind: c02WPopFirst}
+		case w < 97:
+			a = c02WAct{kind: c02WRebind}
+		default:
+			a = c02WAct{kind: c02WSetElem}
+		}
+		ru.acts = append(ru.acts, a)
+	}
+	if chance(r, 0.06) {
+		ru.acts = append(ru.acts, c02WAct{kind: c02WNext})
+	}
+	// the condition
+	if growth {
+		switch w := r.Intn(10); {
+		case w < 3:
+			ru.cond, ru.ck = c02WIdxEq, r.Intn(n+1)
+		case w < 5:
+			ru.cond, ru.ck = c02WIdxLt, 1+r.Intn(3)
+		case w < 7:
+			ru.cond, ru.ck = c02WLenLt, n+1+r.Intn(4)
+		case w < 9 && onlyNear:
+			ru.cond, ru.ck = c02WElemLt, 1+r.Intn(6)
+		default:
+			ru.cond, ru.ck = c02WIdxEq, r.Intn(n+1)
+		}
+	} else {
+		switch r.Intn(9) {
+		case 0, 1:
+			ru.cond = c02WAlways
+		case 2:
+			ru.cond, ru.ck = c02WIdxEq, r.Intn(n+1)
+		case 3:
+			ru.cond, ru.ck = c02WIdxLt, 1+r.Intn(3)
+		case 4:
+			ru.cond, ru.ck = c02WElemLt, 1+r.Intn(6)
+		case 5:
+			ru.cond, ru.ck = c02WIdxMod, r.Intn(2)
+		case 6:
+			ru.cond, ru.ck = c02WLenLt, n+1+r.Intn(4)
+		case 7:
+			ru.cond = c02WIdxPos
+		case 8:
+			ru.cond = c02WIdxLast
+		}
+	}
+	for i := range ru.acts {
+		ru.acts[i].e = c02WGenExpr(r, ru.cond == c02WElemLt)
+	}
+	return ru
+}
+
+// c02WWalkOracle: the number of runs and their $index per root, read off the "T" lines.
+func c02WWalkOracle(walks []int) func(Resp) string {
+	return func(i Resp) string {
+		if i["class"] != "ok" {
+			return fmt.Sprintf("expected a complete run, implementation says %s (%s)", i["class"], i["msg"])
+		}
+		var got [][]string
+		for _, l := range strings.Split(string(i.Bytes("out")), "\n") {
+			switch {
+			case strings.HasPrefix(l, "BF "):
+				got = append(got, nil)
+			case strings.HasPrefix(l, "T ") && len(got) > 0:
+				got[len(got)-1] = append(got[len(got)-1], strings.Fields(l)[1])
+			}
+		}
+		if len(got) != len(walks) {
+			return fmt.Sprintf("%d roots were walked, expected %d", len(got), len(walks))
+		}
+		for k, n := range walks {
+			want := make([]string, n)
+			for j := range want {
+				want[j] = strconv.Itoa(j)
+			}
+			if strings.Join(got[k], ",") != strings.Join(want, ",") {
+				return fmt.Sprintf("root %d had %d elements when its walk began: the pattern rules must run for $index %v, they ran for %v", k, n, want, got[k])
+			}
+		}
+		return ""
+	}
+}
+
+func c02WCase(r *rand.Rand, pops bool) (Case, bool) {
+	p := &c02WProg{alias: r.Intn(len(c02WAliasNames)), src: pick(r, []int{0, 0, 0, 0, 1, 2}), viaFn: chance(r, 0.25)}
+	if p.src == 2 {
+		for k := r.Intn(6); k > 0; k-- {
+			p.lit = append(p.lit, r.Intn(10))
+		}
+	}
+	nf := pick(r, []int{1, 1, 1, 2})
+	var files []File
+	var roots [][]any
+	maxN := 0
+	for f := 0; f < nf; f++ {
+		var vals []string
+		for k := pick(r, []int{1, 1, 1, 2, 3}); k > 0; k-- {
+			n := pick(r, []int{0, 1, 2, 3, 3, 4, 4, 5, 6})
+			root := make([]any, n)
+			parts := make([]string, n)
+			for j := range root {
+				if chance(r, 0.06) {
+					root[j], parts[j] = nil, "null"
+				} else {
+					v := r.Intn(10)
+					root[j], parts[j] = v, strconv.Itoa(v)
+				}
+			}
+			if n > maxN {
+				maxN = n
+			}
+			t := "[" + strings.Join(parts, ",") + "]"
+			if p.src == 1 {
+				t = `{"a":1,"list":` + t + `}`
+			}
+			vals = append(vals, t)
+			roots = append(roots, root)
+		}
+		files = append(files, File{Name: c02Names[f], Data: []byte(strings.Join(vals, pick(r, []string{" ", "\n"})))})
+	}
+	if p.src == 2 {
+		maxN = len(p.lit)
+	}
+	for k := pick(r, []int{1, 1, 2, 2, 3}); k > 0; k-- {
+		p.rules = append(p.rules, c02WGenRule(r, maxN, pops))
+	}
+	var sels []string
+	if p.src == 1 {
+		sels = []string{"$.list"}
+	}
+	class, out, walks, gap := c02WRun(p, roots)
+	prog := p.text()
+	hasPop := false
+	for _, ru := range p.rules {
+		for _, a := range ru.acts {
+			if a.kind == c02WPop || a.kind == c02WPopFirst {
+				hasPop = true
+			}
+		}
+	}
+	row := "grow/store"
+	if hasPop {
+		row = "pop"
+	}
+	meta := metaProg(prog, "selectors", strings.Join(sels, " | "), "files", c02FilesMeta(files), "alias", c02WAliasNames[p.alias], "row", row)
+	c := Case{Req: RunReq(prog, sels, files, false), Fields: []string{"class", "out"}, Meta: meta}
+	if gap {
+		// the walked array grew after a pop() during its own walk: only the schedule is fixed
+		if class != "ok" {
+			return c, false
+		}
+		meta["row"] = "pop-then-grow (implementation only)"
+		c.ImplOnly = true
+		c.Oracle = c02WWalkOracle(walks)
+		return c, true
+	}
+	exact := c02RefOracle(class, out)
+	walk := c02WWalkOracle(walks)
+	c.Oracle = func(i Resp) string {
+		if class == "ok" {
+			if w := walk(i); w != "" {
+				return w
+			}
+		}
+		return exact(i)
+	}
+	return c, true
+}
+
+func init() {
+	register(Family{
+		Name: "root-changed-during-walk", Prop: "C02",
+		Rule: "an array root that is changed through a second name while its elements are processed: the name is taken in BEGINFILE (directly / by a second BEGINFILE rule / as a function parameter / as a function result / as an object member / as an array element / only for the first root), the root is the input array, a selector root or an array assigned to $ in BEGINFILE; 1-3 pattern rules (directly or through functions) push, store at absolute and $index-relative positions ahead, behind and past the end (auto-fill), assign $, pop, popfirst, re-bind the name, next; 1-2 files with 1-3 roots of 0-6 elements; every run prints $index and $ (first rule, traced rules, last rule with the live length), ENDFILE prints $ and the name. Expected from the model and from the reference of the property (c02WRun: the cells the root had when the walk began, in index order, values read at their turn); oracle 1: per root exactly one run per initial element, $index 0..n-1; oracle 2: the whole trace. Programs in which the walked array grows after a pop() during its own walk are implementation-only with oracle 1 (DESIGN section 2: what $ holds at the re-used slot is unmodelled)",
+		Gen: func(r *rand.Rand, tier string, emit func(Case)) {
+			// the witnesses of the seeded change, literally
+			for _, w := range []struct{ prog, in, out string }{
+				{`BEGINFILE { all = $ } $ < 3 { all.push($ * 10) } { print $index, $ } ENDFILE { print "end", $ }`, "[1,2,3]", "0 1\n1 2\n2 3\nend [1, 2, 3, 10, 20]\n"},
+				{`BEGINFILE { all = $ } $index == 0 { all.pop() } { print $index, $ } ENDFILE { print "end", $ }`, "[1,2,3,4]", "0 1\n1 2\n2 3\n3 4\nend [1, 2, 3]\n"},
+				{`BEGINFILE { all = $ } $index == 0 { all.popfirst() } { print $index, $ } ENDFILE { print "end", $ }`, "[1,2,3,4]", "0 1\n1 2\n2 3\n3 4\nend [2, 3, 4]\n"},
+				{`BEGINFILE { all = $ } $index == 1 { all[5] = 9 } { print $index, $ } ENDFILE { print "end", $ }`, "[1,2,3]", "0 1\n1 2\n2 3\nend [1, 2, 3, null, null, 9]\n"},
+			} {
+				files := []File{{Name: "in.json", Data: []byte(w.in)}}
+				emit(Case{Req: RunReq(w.prog, nil, files, false), Fields: []string{"class", "out"},
+					Meta: metaProg(w.prog, "files", c02FilesMeta(files)), Oracle: c02RefOracle("ok", w.out)})
+			}
+			n := tierN(tier, 4000, 60000)
+			for i := 0; i < n; i++ {
+				if c, ok := c02WCase(r, i%2 == 0); ok {
+					emit(c)
+				}
+			}
 		},
 	})
 }
